@@ -2015,6 +2015,22 @@ static void selftest(void)
 					vf_fail("selftest:C13", "time gap rules, hand log %u: %d violation(s), first '%s'", q, n_vlist, n_vlist ? vlist[0].key : "");
 			}
 			n_zph = n_ev = n_vlist = 0;
+			/* the recorded deviation: B0 blank at frame 12, discontinuity at 14, N1 at 16, X blank at 14 + 40 = 54, N2 at 56 */
+			memset(evs_ref, 0, sizeof evs_ref[0] * 5);
+			for (k = 0; k < 5; k++) evs_ref[k].type = VBI_EVENT_NETWORK;
+			evs_ref[0].frame = 3; evs_ref[0].net.nuid = 5; evs_ref[1].frame = 12; evs_ref[2].frame = 16; evs_ref[2].net.nuid = 7;
+			evs_ref[3].frame = 54; evs_ref[4].frame = 56; evs_ref[4].net.nuid = 7;
+			evs = evs_ref; n_ev = 5; n_ts_gap_frames = 1; ts_gap_frames[0] = 14;
+			EXPECT("stale countdown pattern", q_stale_countdown_blank(3) && q_stale_countdown_between(16, 56) && q_stale_countdown_within(16, 56) && !q_stale_countdown_blank(1));
+			evs_ref[3].frame = 55;
+			EXPECT("stale countdown pattern, other frame", !q_stale_countdown_blank(3) && !q_stale_countdown_between(16, 56));
+			evs_ref[3].frame = 54; ts_gap_frames[0] = 8;    /* the discontinuity came while station 5 was identified: the seeded break, not this deviation */
+			EXPECT("stale countdown pattern, discontinuity before the revocation", !q_stale_countdown_blank(3));
+			ts_gap_frames[0] = 14; ts_gap_frames[1] = 15; n_ts_gap_frames = 2;  /* a second irregular frame does not count down */
+			EXPECT("stale countdown pattern, two discontinuities", !q_stale_countdown_blank(3));
+			evs_ref[3].frame = 55;
+			EXPECT("stale countdown pattern, two discontinuities, one frame later", q_stale_countdown_blank(3));
+			evs = evs_lib; n_ev = 0; n_ts_gap_frames = 0;
 		}
 #undef LOAD
 #undef EXPECT
